@@ -21,27 +21,305 @@ def CellsOK (env : Env) (E : Expr) (cs : Cells) : Prop :=
   ∀ p v, lookupCell cs p = some v →
     ∃ e, subAt E p = some e ∧ volatile e = false ∧ ∀ cur key, evalExpr env cur key e = v
 
+/-! ### Soundness of the volatility analysis -/
+
+mutual
+theorem nv_expr (env : Env) (c1 c2 : J) (k1 k2 : Option Part) :
+    (e : Expr) → volatile e = false → evalExpr env c1 k1 e = evalExpr env c2 k2 e
+  | .nil, _ | .undefined, _ | .bool _, _ | .int _, _ | .flt _, _ | .str _, _ | .regex _ _, _ => by
+    simp only [evalExpr]
+  | .self _, h | .key, h => by simp [volatile] at h
+  | .root _ _, _ | .ctx _, _ => by simp only [evalExpr]
+  | .list items, h => by
+    simp only [volatile] at h
+    simp only [evalExpr]
+    rw [nv_lits env c1 c2 k1 k2 items h]
+  | .not e, h => by
+    simp only [volatile] at h
+    simp only [evalExpr]
+    rw [nv_expr env c1 c2 k1 k2 e h]
+  | .infix l op r, h => by
+    simp only [volatile, Bool.or_eq_false_iff] at h
+    simp only [evalExpr]
+    rw [nv_expr env c1 c2 k1 k2 l h.1, nv_expr env c1 c2 k1 k2 r h.2]
+  | .func name args, h => by
+    simp only [volatile] at h
+    simp only [evalExpr]
+    rw [nv_args env c1 c2 k1 k2 args h]
+theorem nv_lits (env : Env) (c1 c2 : J) (k1 k2 : Option Part) :
+    (es : List Expr) → anyVolatile es = false → evalLits env c1 k1 es = evalLits env c2 k2 es
+  | [], _ => by simp only [evalLits]
+  | e :: es, h => by
+    simp only [anyVolatile, Bool.or_eq_false_iff] at h
+    simp only [evalLits]
+    rw [nv_expr env c1 c2 k1 k2 e h.1, nv_lits env c1 c2 k1 k2 es h.2]
+theorem nv_args (env : Env) (c1 c2 : J) (k1 k2 : Option Part) :
+    (es : List Expr) → anyVolatile es = false → evalArgs env c1 k1 es = evalArgs env c2 k2 es
+  | [], _ => by simp only [evalArgs]
+  | e :: es, h => by
+    simp only [anyVolatile, Bool.or_eq_false_iff] at h
+    simp only [evalArgs]
+    rw [nv_expr env c1 c2 k1 k2 e h.1, nv_args env c1 c2 k1 k2 es h.2]
+end
+
 theorem nonvolatile_ctx_independent (env : Env) (e : Expr) (h : volatile e = false)
     (c1 c2 : J) (k1 k2 : Option Part) :
-    evalExpr env c1 k1 e = evalExpr env c2 k2 e := by
-  sorry
+    evalExpr env c1 k1 e = evalExpr env c2 k2 e :=
+  nv_expr env c1 c2 k1 k2 e h
+
+/-! ### `evalExpr` in terms of the combination functions of `JP.Cache` -/
+
+theorem evalExpr_infix (env : Env) (cur : J) (key : Option Part) (l r : Expr) (op : CmpOp) :
+    evalExpr env cur key (.infix l op r)
+      = combineInfix env op (evalExpr env cur key l) (evalExpr env cur key r) := by
+  simp only [evalExpr, combineInfix]
+  rfl
+
+theorem evalExpr_func (env : Env) (cur : J) (key : Option Part) (name : Str) (args : List Expr) :
+    evalExpr env cur key (.func name args) = combineFunc env name (evalArgs env cur key args) := by
+  simp only [evalExpr, combineFunc]
+  rfl
+
+theorem evalLits_eq_map (env : Env) (cur : J) (key : Option Part) (es : List Expr) :
+    evalLits env cur key es = (evalArgs env cur key es).map litOf := by
+  induction es with
+  | nil => simp only [evalLits, evalArgs, List.map_nil]
+  | cons e es ih =>
+    simp only [evalLits, evalArgs, List.map_cons, ih]
+    congr 1
+
+theorem evalExpr_list (env : Env) (cur : J) (key : Option Part) (items : List Expr) :
+    evalExpr env cur key (.list items) = .val (.arr ((evalArgs env cur key items).map litOf)) := by
+  simp only [evalExpr, evalLits_eq_map]
+
+theorem evalExpr_not (env : Env) (cur : J) (key : Option Part) (e : Expr) :
+    evalExpr env cur key (.not e) = .val (.bool (!isTruthy (evalExpr env cur key e))) := by
+  simp only [evalExpr]
+
+/-! ### Positions -/
+
+theorem subAt_nil (E : Expr) : subAt E [] = some E := by
+  cases E <;> simp only [subAt]
+
+theorem subAt_append (E e : Expr) (p q : Pos) (h : subAt E p = some e) :
+    subAt E (p ++ q) = subAt e q := by
+  induction p generalizing E with
+  | nil =>
+    rw [subAt_nil] at h
+    cases h; rfl
+  | cons i p ih =>
+    cases E with
+    | list items =>
+      simp only [List.cons_append, subAt] at h ⊢
+      cases hi : items[i]? with
+      | none => rw [hi] at h; cases h
+      | some x =>
+        rw [hi] at h
+        simp only [Option.bind_some] at h ⊢
+        exact ih x h
+    | func name args =>
+      simp only [List.cons_append, subAt] at h ⊢
+      cases hi : args[i]? with
+      | none => rw [hi] at h; cases h
+      | some x =>
+        rw [hi] at h
+        simp only [Option.bind_some] at h ⊢
+        exact ih x h
+    | not e' =>
+      cases i with
+      | zero => simp only [List.cons_append, subAt] at h ⊢; exact ih e' h
+      | succ n => simp only [subAt] at h; cases h
+    | «infix» l op r =>
+      match i with
+      | 0 => simp only [List.cons_append, subAt] at h ⊢; exact ih l h
+      | 1 => simp only [List.cons_append, subAt] at h ⊢; exact ih r h
+      | n + 2 => simp only [subAt] at h; cases h
+    | _ => simp only [subAt] at h; cases h
+
+theorem subAt_snoc_not {E e : Expr} {p : Pos} (h : subAt E p = some (.not e)) :
+    subAt E (p ++ [0]) = some e := by
+  rw [subAt_append E _ p [0] h]; simp only [subAt]
+theorem subAt_snoc_infix_l {E l r : Expr} {op : CmpOp} {p : Pos} (h : subAt E p = some (.infix l op r)) :
+    subAt E (p ++ [0]) = some l := by
+  rw [subAt_append E _ p [0] h]; simp only [subAt]
+theorem subAt_snoc_infix_r {E l r : Expr} {op : CmpOp} {p : Pos} (h : subAt E p = some (.infix l op r)) :
+    subAt E (p ++ [1]) = some r := by
+  rw [subAt_append E _ p [1] h]; simp only [subAt]
+theorem subAt_snoc_list {E : Expr} {items : List Expr} {p : Pos} (h : subAt E p = some (.list items))
+    (i : Nat) (hi : i < items.length) : subAt E (p ++ [i]) = some items[i] := by
+  rw [subAt_append E _ p [i] h]; simp only [subAt, List.getElem?_eq_getElem hi, Option.bind_some]
+theorem subAt_snoc_func {E : Expr} {name : Str} {args : List Expr} {p : Pos} (h : subAt E p = some (.func name args))
+    (i : Nat) (hi : i < args.length) : subAt E (p ++ [i]) = some args[i] := by
+  rw [subAt_append E _ p [i] h]; simp only [subAt, List.getElem?_eq_getElem hi, Option.bind_some]
+
+/-! ### The cache invariant -/
+
+theorem cached_nonvolatile {e : Expr} (h : cached e = true) : volatile e = false := by
+  simp only [cached, Bool.and_eq_true, Bool.not_eq_true'] at h
+  exact h.1
+
+theorem cellsOK_nil (env : Env) (E : Expr) : CellsOK env E [] := by
+  intro p v h
+  simp only [lookupCell] at h
+  cases h
+
+/-- `evalC` is transparent at `e` as soon as `evalInner` is. -/
+theorem evalC_of_inner (env : Env) (E e : Expr) (p : Pos) (cs : Cells) (cur : J) (key : Option Part)
+    (hsub : subAt E p = some e) (hok : CellsOK env E cs)
+    (hI : (evalInner env cur key e p cs).1 = evalExpr env cur key e ∧
+          CellsOK env E (evalInner env cur key e p cs).2) :
+    (evalC env cur key e p cs).1 = evalExpr env cur key e ∧ CellsOK env E (evalC env cur key e p cs).2 := by
+  rw [evalC]
+  by_cases hc : cached e = true
+  · rw [if_pos hc]
+    cases hl : lookupCell cs p with
+    | some v =>
+      simp only []
+      obtain ⟨e', he', _, hv⟩ := hok p v hl
+      rw [hsub] at he'
+      cases he'
+      exact ⟨(hv cur key).symm, hok⟩
+    | none =>
+      simp only []
+      refine ⟨hI.1, ?_⟩
+      intro q w hq
+      simp only [lookupCell] at hq
+      by_cases hpq : p = q
+      · rw [if_pos hpq] at hq
+        cases hq
+        subst hpq
+        refine ⟨e, hsub, cached_nonvolatile hc, ?_⟩
+        intro cur' key'
+        rw [hI.1]
+        exact nonvolatile_ctx_independent env e (cached_nonvolatile hc) cur' cur key' key
+      · rw [if_neg hpq] at hq
+        exact hI.2 q w hq
+  · rw [if_neg hc]
+    exact hI
+
+mutual
+theorem evalInner_ok (env : Env) (E : Expr) (cur : J) (key : Option Part) :
+    (e : Expr) → (p : Pos) → (cs : Cells) → subAt E p = some e → CellsOK env E cs →
+    (evalInner env cur key e p cs).1 = evalExpr env cur key e ∧
+      CellsOK env E (evalInner env cur key e p cs).2
+  | .list items, p, cs, hsub, hok => by
+    have h := evalCList_ok env E cur key items p 0 cs
+      (fun j hj => by rw [Nat.zero_add]; exact subAt_snoc_list hsub j hj) hok
+    rw [evalInner, evalExpr_list]
+    simp only []
+    rw [h.1]
+    exact ⟨rfl, h.2⟩
+  | .func name args, p, cs, hsub, hok => by
+    have h := evalCList_ok env E cur key args p 0 cs
+      (fun j hj => by rw [Nat.zero_add]; exact subAt_snoc_func hsub j hj) hok
+    rw [evalInner, evalExpr_func]
+    simp only []
+    rw [h.1]
+    exact ⟨rfl, h.2⟩
+  | .not e, p, cs, hsub, hok => by
+    have hs := subAt_snoc_not hsub
+    have h := evalC_of_inner env E e (p ++ [0]) cs cur key hs hok
+      (evalInner_ok env E cur key e (p ++ [0]) cs hs hok)
+    rw [evalInner, evalExpr_not]
+    simp only []
+    rw [h.1]
+    exact ⟨rfl, h.2⟩
+  | .infix l op r, p, cs, hsub, hok => by
+    have hsl := subAt_snoc_infix_l hsub
+    have hsr := subAt_snoc_infix_r hsub
+    have h1 := evalC_of_inner env E l (p ++ [0]) cs cur key hsl hok
+      (evalInner_ok env E cur key l (p ++ [0]) cs hsl hok)
+    have h2 := evalC_of_inner env E r (p ++ [1]) _ cur key hsr h1.2
+      (evalInner_ok env E cur key r (p ++ [1]) _ hsr h1.2)
+    rw [evalInner, evalExpr_infix]
+    simp only []
+    rw [h2.1, h1.1]
+    exact ⟨rfl, h2.2⟩
+  | .nil, _, _, _, hok | .undefined, _, _, _, hok | .bool _, _, _, _, hok | .int _, _, _, _, hok
+  | .flt _, _, _, _, hok | .str _, _, _, _, hok | .regex _ _, _, _, _, hok | .self _, _, _, _, hok
+  | .root _ _, _, _, _, hok | .ctx _, _, _, _, hok | .key, _, _, _, hok => by
+    rw [evalInner] <;> first | exact ⟨rfl, hok⟩ | (intros; simp at *)
+theorem evalCList_ok (env : Env) (E : Expr) (cur : J) (key : Option Part) :
+    (es : List Expr) → (p : Pos) → (i : Nat) → (cs : Cells) →
+    (∀ j (hj : j < es.length), subAt E (p ++ [i + j]) = some es[j]) → CellsOK env E cs →
+    (evalCList env cur key es p i cs).1 = evalArgs env cur key es ∧
+      CellsOK env E (evalCList env cur key es p i cs).2
+  | [], _, _, _, _, hok => by
+    rw [evalCList, evalArgs]; exact ⟨rfl, hok⟩
+  | e :: es, p, i, cs, hsub, hok => by
+    have hs : subAt E (p ++ [i]) = some e := hsub 0 (Nat.zero_lt_succ _)
+    have h1 := evalC_of_inner env E e (p ++ [i]) cs cur key hs hok
+      (evalInner_ok env E cur key e (p ++ [i]) cs hs hok)
+    have h2 := evalCList_ok env E cur key es p (i + 1) _
+      (fun j hj => by
+        have := hsub (j + 1) (Nat.succ_lt_succ hj)
+        rw [Nat.add_assoc, Nat.add_comm 1 j]; exact this) h1.2
+    rw [evalCList, evalArgs]
+    simp only []
+    rw [h2.1, h1.1]
+    exact ⟨rfl, h2.2⟩
+end
 
 theorem evalC_transparent (env : Env) (E e : Expr) (p : Pos) (cs : Cells) (cur : J) (key : Option Part)
     (hsub : subAt E p = some e) (hok : CellsOK env E cs) :
-    (evalC env cur key e p cs).1 = evalExpr env cur key e ∧ CellsOK env E (evalC env cur key e p cs).2 := by
-  sorry
+    (evalC env cur key e p cs).1 = evalExpr env cur key e ∧ CellsOK env E (evalC env cur key e p cs).2 :=
+  evalC_of_inner env E e p cs cur key hsub hok (evalInner_ok env E cur key e p cs hsub hok)
+
+/-- caching on = caching off, from any consistent cell state -/
+theorem resolveCachedFrom_eq (env : Env) (e : Expr) (cands : List (J × Option Part)) (cs : Cells)
+    (hok : CellsOK env e cs) : resolveCachedFrom env e cands cs = resolvePlain env e cands := by
+  induction cands generalizing cs with
+  | nil => simp only [resolveCachedFrom, resolvePlain, List.map_nil]
+  | cons c rest ih =>
+    obtain ⟨cur, key⟩ := c
+    have h := evalC_transparent env e e [] cs cur key (subAt_nil e) hok
+    simp only [resolveCachedFrom, resolvePlain, List.map_cons]
+    rw [h.1, ih _ h.2]
+    rfl
 
 theorem cache_transparent (env : Env) (e : Expr) (cands : List (J × Option Part)) :
-    resolveCached env e cands = resolvePlain env e cands := by
-  sorry
+    resolveCached env e cands = resolvePlain env e cands :=
+  resolveCachedFrom_eq env e cands [] (cellsOK_nil env e)
+
+/-! ### Interleaving -/
 
 theorem interleave_independent {α : Type} (sched : List Nat) (gens : List (List α)) (i : Nat) :
     (((interleave sched gens).1.filter (fun t => t.1 == i)).map (·.2)) ++ ((interleave sched gens).2[i]?.getD [])
       = gens[i]?.getD [] := by
-  sorry
+  induction sched generalizing gens with
+  | nil => simp [interleave]
+  | cons j sched ih =>
+    rw [interleave]
+    split
+    · rename_i x rest h
+      simp only []
+      have hj : j < gens.length := by
+        rcases Nat.lt_or_ge j gens.length with h' | h'
+        · exact h'
+        · rw [List.getElem?_eq_none h'] at h; cases h
+      have ih' := ih (gens.set j rest)
+      by_cases hji : j = i
+      · subst hji
+        rw [List.filter_cons]
+        simp only [beq_self_eq_true, if_true, List.map_cons, List.cons_append]
+        rw [ih', List.getElem?_set_self hj, h]; rfl
+      · rw [List.filter_cons]
+        have : ((j == i) = false) := by simpa using hji
+        simp only [this]
+        rw [if_neg (by simp)]
+        rw [ih', List.getElem?_set_ne hji]
+    · exact ih gens
 
 theorem interleave_length {α : Type} (sched : List Nat) (gens : List (List α)) :
     (interleave sched gens).2.length = gens.length := by
-  sorry
+  induction sched generalizing gens with
+  | nil => simp [interleave]
+  | cons j sched ih =>
+    rw [interleave]
+    split
+    · rename_i x rest h
+      simp only []
+      rw [ih]; simp
+    · exact ih gens
 
 end JP.Lemmas
